@@ -116,7 +116,7 @@ EpochManager::ForwardGlobalEpoch()
   RemoveOutDatedLists(protected_epochs);
 
   // store the max/min epoch values for efficiency
-  global_epoch_.store(next_epoch, std::memory_order_release);
+  global_epoch_.store(next_epoch, std::memory_order_seq_cst);
   min_epoch_.store(protected_epochs.back(), std::memory_order_relaxed);
 }
 
